@@ -70,6 +70,7 @@ func (m *Type) Clone(reuse *Type) *Type {
 	} else {
 		newStackSize = max(m.sp-m.fp[len(m.fp)+localFP], minStackSize)
 	}
+	newStackSize = verifMinStack(newStackSize)
 
 	if reuse != nil {
 		if len(reuse.stack) < newStackSize {
